@@ -138,6 +138,23 @@ def persistent_return(cls_node, fn):
     return None
 
 
+def side_effects(fn):
+    """stores to instance attributes inside a memoised method: on a cache HIT the body does not run, so whoever reads such an attribute
+    afterwards sees the value of the last MISS, which belongs to other arguments as soon as the cache holds more than one entry (or another
+    memoised reader keeps its own entry alive).  -> [(stmt, attr)]"""
+    out = []
+    for n in ast.walk(fn):
+        tg = n.targets if isinstance(n, ast.Assign) else ([n.target] if isinstance(n, (ast.AugAssign, ast.AnnAssign)) else [])
+        for t in tg:
+            for tt in (t.elts if isinstance(t, (ast.Tuple, ast.List)) else [t]):
+                b = tt
+                while isinstance(b, ast.Subscript):
+                    b = b.value
+                if isinstance(b, ast.Attribute) and isinstance(b.value, ast.Name) and b.value.id == "self":
+                    out.append((n, b.attr))
+    return out
+
+
 def report(ctx, rule, scope, check_returns=True, floor_note=True):
     """arms (a) and (b) for the modules whose path starts with one of `scope`; returns the number of functions looked at"""
     rep = ctx.rep
@@ -173,6 +190,9 @@ def report(ctx, rule, scope, check_returns=True, floor_note=True):
                             "alias one array and change with the next call (another offset, another state)", f"{rel}:{st.lineno}")
                 else:
                     rep.ok(rule, C, "memoised method returns a freshly built value")
+                for st, a in side_effects(fn):
+                    rep.bad(rule, C, st, f"the memoised method stores `self.{a}` as a side effect: a cache hit skips the body, so a later reader of `self.{a}` gets the value of the last "
+                            "cache MISS, which belongs to other arguments once two configurations alternate (and the reader memoises the wrong result in turn)", f"{rel}:{st.lineno}")
     if floor_note:
         rep.note(f"{rule}: {nfn} functions scanned, {nloc} locals bound directly to memoised results; memoised names: {', '.join(sorted(base))}")
     return nfn
